@@ -377,8 +377,9 @@ bool Parser::parseDeclarationOrFunctionDefinition_AtDeclarator(
             }
 
             case SyntaxKind::OpenBraceToken:
-                // A function definition has a single declarator.
+                // A function definition has a single declarator, without an initializer.
                 if (decltorList_cur == &decltorList
+                        && !init
                         && parseFunctionDefinition_AtOpenBrace(decl, specList, decltor, nullptr))
                     return true;
                 [[fallthrough]];
